@@ -25,7 +25,7 @@ import re
 import sys
 import zlib
 
-NFILES = 8
+NFILES = 16
 
 # public methods that are not "one instruction from register/immediate operands": own theorems / oracles
 NOT_SINGLE = {
@@ -41,24 +41,17 @@ NOT_SINGLE = {
     "mov_imm_size": "mov-immediate sequence",
 }
 
-# single-instruction methods whose theorem the generic proof script does not close yet (measured 2026-09-24). They stay
+# single-instruction methods whose theorem the generic proof script does not close (measured 2026-09-24). They stay
 # compared by the sweep (decoded word = Spec, checks/c08.py) and are listed in the evidence as `unproved_methods`.
-# Families: add/sub/mov/cmp that choose the sp-capable form by an `if` on the operands; scaled / signed offsets
-# (ldr_imm_*, str_imm_*, ldur*/stur*, ldp/stp*, cbz_imm/bl_imm/adr_imm: `sext`, `memOff`, `pairMem` bridges missing);
-# register-offset loads/stores (`if amount == 0`); add/sub immediate and extended register; move-wide; one-source FP.
+#   and_imm, and_imm_w  need "encode_logical_imm accepts => DecodeBitMasks gives the immediate back" for EVERY immediate;
+#                       Props/C08/LogImmRT.lean has only the round trip over the image of DecodeBitMasks
+#   addv, cnt           the q/size case analysis of the spec is not closed
+#   fcvt_ds, fcvt_sd    decFpDP1's mnemonic chain exceeds the simp step limit
+#   lsl_imm, lsl_imm_w  the method computes immr/imms with a local mask; arithmetic bridge missing
+#   ldr                 MemOperand operand (scaled offset from a 64-bit value)
 # A method that is NOT listed here (e.g. a new one) gets a theorem; if that does not check, the check reports it.
 UNPROVED = {
-    "add_sh", "add_sh_w", "adds_sh", "adds_sh_w", "addv", "adr_imm", "adrp_imm", "and_imm",
-    "and_imm_w", "bfm_w", "cmp_sh", "cmp_sh_w", "cnt", "fabs_d", "fabs_s", "fcvt_ds",
-    "fcvt_sd", "fmov_d", "fmov_s", "fneg_d", "fneg_s", "frinta_d", "frinta_s", "frintm_d",
-    "frintm_s", "frintn_d", "frintn_s", "frintp_d", "frintp_s", "frintz_d", "frintz_s", "fsqrt_d",
-    "fsqrt_s", "ldp", "ldp_w", "ldr", "ldr_imm_d", "ldr_imm_s", "ldr_imm_w", "ldr_imm_x",
-    "ldr_reg", "ldr_reg_d", "ldr_reg_s", "ldr_reg_w", "ldrb_imm", "ldrb_reg", "ldrh_imm", "ldrh_reg",
-    "ldur_d", "ldur_s", "lsl_imm", "lsl_imm_w", "lsr_imm_w", "mov", "mov_w", "movk",
-    "movk_w", "movn", "movn_w", "movz", "movz_w", "sbfm_w", "stp_post", "stp_post_w",
-    "stp_pre_w", "str_imm", "str_imm_d", "str_imm_s", "str_imm_w", "str_imm_x", "str_reg", "str_reg_d",
-    "str_reg_s", "str_reg_w", "strb_imm", "strb_reg", "strh_imm", "strh_reg", "stur_d", "stur_s",
-    "sub_sh", "sub_sh_w", "subs_sh", "subs_sh_w", "ubfm_w",
+    "and_imm", "and_imm_w", "addv", "cnt", "fcvt_ds", "fcvt_sd", "lsl_imm", "lsl_imm_w", "ldr",
 }
 
 # class encoder -> decoder class (dispatch lemma `decode_<X>` and decoder function `dec<X>` of A64/Dec.lean)
@@ -102,7 +95,8 @@ def parse_cls_theorems(lean_root):
             fields = {}
             for lo, ln, par in re.findall(r"w\.extractLsb' (\d+) (\d+) = BitVec\.setWidth \d+ (\w+)\s*(?:∧|$)", stmt):
                 fields[par] = (int(lo), int(ln))
-            mv = re.search(r"w &&& (\d+)#32 = (\d+)#32\s*$", stmt.strip())
+            mvs = re.findall(r"w &&& (\d+)#32 = (\d+)#32", stmt)
+            mv = re.match(r"(\d+) (\d+)", "%s %s" % mvs[-1]) if mvs else None
             res[m.group(1)] = dict(binders=[b for b, t in re.findall(r"\((\w+) : ([^)]*)\)", m.group(2)) if "=" not in t], fields=fields,
                                    mask=int(mv.group(1)) if mv else 0, val=int(mv.group(2)) if mv else 0)
     return res
@@ -213,14 +207,15 @@ def theorem_text(name, kinds, methods, cls_thms):
         return None, "class encoder without decoder table entry / class theorem: %s" % ", ".join(unknown)
     unfold = " ".join("AssemblerArm64.%s" % n for n in [name] + callees(name, methods))
     unfold += " inst.b_cond_imm" if "inst.b_cond_imm" in "".join(methods[n][1] for n in [name] + callees(name, methods)) else ""
-    enums = [p for (p, t) in params if t in ("Shift", "Cond", "Extend")]
-    cases = "".join("cases %s <;> " % e for e in enums)
+    enums = [p for (p, t) in params if t in ("Shift", "Cond", "Extend") and not (t == "Extend" and "ldst_regoffset" in cl)]
+    cases = "".join(" <;> cases %s" % e for e in enums)
     alts = []
     for c in cl:
         dec = CLS_DEC[c]
         mk, vl = method_mask(c, bodies, cls_thms)
-        alts.append("(%smethod_pre (%s_sound (h := by assumption)) decode_%s dec%s %d#32 %d#32 <;> method_fin)"
-                    % (cases, c, dec, re.sub(r"^(LdStPair)\d$", r"\1", dec), mk, vl))
+        pre = "regoff_cases <;> " if c == "ldst_regoffset" else ""
+        alts.append("(%smethod_pre (%s_sound (h := by assumption)) decode_%s dec%s %d#32 %d#32%s <;> method_fin)"
+                    % (pre, c, dec, re.sub(r"^(LdStPair)\d$", r"\1", dec), mk, vl, cases))
     core = alts[0] if len(alts) == 1 else "first\n    | " + "\n    | ".join(alts)
     nsplit = sum(len(re.findall(r"^\s*if .* then$", methods[n][1], re.M)) for n in [name] + callees(name, methods))
     doc = ("/-- `%s`: if the method accepts its operands%s, it appends one word `w`, and `w` decodes under the reference "
@@ -231,6 +226,7 @@ def theorem_text(name, kinds, methods, cls_thms):
              "theorem %s_ok %s %s (s s' : AssemblerArm64) (hA : AppendCond s)" % (name, binders, " ".join(neon)),
              "    (h : (AssemblerArm64.%s %s).run s = .ok ((), s')) :" % (name, call),
              "    ∃ w, s' = emitted s w ∧ Requested (spec \"%s\" [%s]) w := by" % (name, args),
+             "  spec_eval",
              "  unfold %s at h" % unfold]
     lines.append("  method_split h")
     lines.append("  all_goals (%s hA h)" % ("peel_imm" if "encode_addsub_imm" in bodies else "peel"))
@@ -245,6 +241,8 @@ under the reference decoder (A64/Dec.lean) to exactly the instruction the specif
 Part %d of %d (split only so that lake builds the parts in parallel). -/
 set_option linter.unusedSimpArgs false
 set_option linter.unusedVariables false
+-- the budget is per declaration; a method with an enum operand runs the closing script once per constructor
+set_option maxHeartbeats 4000000
 namespace Dora.A64.C08
 open Dora.A64
 
